@@ -72,7 +72,8 @@ NESTED = {'op': 'def', 'var': 't1', 'fn': 'g', 'args': [{'c': 1}, {'c': 2}],
 CORPUS = [('twice', TWICE), ('nested-with-barrier', NESTED)]
 
 PREAMBLE = lg.COQ_PREAMBLE + '''
-Inductive cop := OLoad | OPhase | OExecute | OCleanup | OCleanupKeep.
+Inductive cop := OLoad | OPhase | OExecute | OCleanup | OCleanupKeep | ODeps (ds : list (list tid)) | OInvalidate (sel : list tid).
+Definition tidset_eqb (a b : list tid) : bool := forallb (fun x => mem_tid x b) a && forallb (fun x => mem_tid x a) b.
 (* after the step: alltasks (ids), __jug__hasbarrier__, tasks executed, the store, number of loaded tasks
    with a result, number without *)
 Definition cobs := (list tid * bool * list tid * store * nat * nat)%type.
@@ -101,14 +102,21 @@ Fixpoint run_ops (p : jprog) (st : store) (locks : list tid) (ops : list (cop * 
       | OCleanupKeep =>
           let st1 := cleanup st p in
           pos_list_eqb (ids (l_tasks l)) ts && Bool.eqb (l_hasbarrier l) hb && store_eqb st1 sto && run_ops p st1 locks r
+      | ODeps ds =>
+          (* Task.dependencies() of every loaded task = the tasks under its arguments (a collapsed compound: those of the call) *)
+          pos_list_eqb (ids (l_tasks l)) ts && Bool.eqb (l_hasbarrier l) hb &&
+          list_eqb tidset_eqb (map (fun t => atids_list (targs t)) (l_tasks l)) ds && store_eqb st sto && run_ops p st locks r
+      | OInvalidate sel =>
+          let st1 := invalidate (fun t => mem_tid t sel) st p in
+          pos_list_eqb (ids (l_tasks l)) ts && Bool.eqb (l_hasbarrier l) hb && store_eqb st1 sto && run_ops p st1 locks r
       end
   end.
 Definition chk_seq (c : jprog * store * list tid * list (cop * cobs)) : bool := let '(p, st, locks, ops) := c in run_ops p st locks ops.
 '''
 CASE_TYPE = 'jprog * store * list tid * list (cop * cobs)'
 DEEP_SLACK = 170                       # Python frames left to jug on programs with long dependency chains (~4 per link)
-OPS = ('load', 'phase', 'execute', 'cleanup', 'cleanup_keep')
-OP_COQ = {'load': 'OLoad', 'phase': 'OPhase', 'execute': 'OExecute', 'cleanup': 'OCleanup', 'cleanup_keep': 'OCleanupKeep'}
+OPS = ('load', 'phase', 'execute', 'cleanup', 'cleanup_keep', 'deps', 'invalidate', 'invalidate_shell')
+OP_COQ = {'load': 'OLoad', 'phase': 'OPhase', 'execute': 'OExecute', 'cleanup': 'OCleanup', 'cleanup_keep': 'OCleanupKeep'}    # deps / invalidate carry data
 
 
 class Env:
@@ -171,6 +179,30 @@ def real_cleanup(sc, store, keep_locks=False, slack=None):
     with jugrun.quiet():
         with lg.low_recursion(slack):
             cmdapi.run('cleanup', options=opts, store=r['store'], jugspace=r['space'])
+    return r
+
+
+def name_matches(target, name):
+    from jug.utils import prepare_task_matcher
+    return bool(prepare_task_matcher(target)(name))
+
+
+def real_invalidate(sc, store, target, shell=False, slack=None):
+    """`jug invalidate --target <target>` (InvalidateCommand), or what the jug shell's invalidate(t) does for every loaded
+    task of that name.  Returns the load it was run on."""
+    from jug.subcommands import cmdapi
+    r = lg.real_init(sc, store, slack=slack)
+    with jugrun.quiet():
+        with lg.low_recursion(slack):
+            if shell:
+                from jug.subcommands.shell import invalidate as shell_invalidate
+                reverse = {}
+                for t in list(r['objs']):
+                    if name_matches(target, t.name):
+                        shell_invalidate(list(r['objs']), reverse, t)
+            else:
+                opts = jug.options.parse(['invalidate', sc.jugfile, '--jugdir', 'dict_store', '--target', target])
+                cmdapi.run('invalidate', options=opts, store=r['store'], jugspace=r['space'])
     return r
 
 
@@ -263,7 +295,10 @@ class SeqRun:
         steps, metas = [], []
         ctx0 = {'start': [[h, v] for h, v in start], 'backend': backend, 'ops': list(ops), 'held': sorted(held), 'failed': sorted(failed)}
         locks_now = (sorted(held), sorted(failed))
+        desc_of = dict((it.hash_of_desc[d], d) for d in it.descs)
         for k, op in enumerate(ops):
+            op, _, target = op.partition(':')
+            opcoq = OP_COQ.get(op)
             ctx = dict(ctx0, step=k)
             before = env.items()
             blocked = set(locks_now[0]) | set(locks_now[1])
@@ -292,6 +327,44 @@ class SeqRun:
                     r = real_cleanup(self.sc, s, keep_locks=(op == 'cleanup_keep'), slack=self.slack)
                     tasks, hb = r['tasks'], r['hasbarrier']
                     self.builder_oracle(r['marks'], before, ctx)
+                elif op == 'deps':
+                    r = lg.real_init(self.sc, s, slack=self.slack)
+                    tasks, hb = r['tasks'], r['hasbarrier']
+                    deps = [sorted(set(lg.hx(d.hash()) for d in t.dependencies())) for t in r['objs']]
+                    opcoq = '(ODeps [%s])' % '; '.join('[%s]' % '; '.join(str(it.hash_id(h)) for h in ds) for ds in deps)
+                    for h, ds in zip(tasks, deps):
+                        if h in self.comp_hashes and h in before and h in desc_of:
+                            want = sorted(set(it.hash_of_desc[x] for x in lg.desc_deps(desc_of[h])))
+                            if ds != want:
+                                self.viol('a collapsed compound does not have the tasks under the arguments of its call as dependencies',
+                                          compound=h, dependencies=ds, expected=want, **ctx)
+                elif op in ('invalidate', 'invalidate_shell'):
+                    if not target:
+                        # the name of a loaded task, preferably one under the arguments of a compound
+                        r0 = lg.real_init(self.sc, s, slack=self.slack)
+                        under = set()
+                        for h in r0['tasks']:
+                            if h in self.comp_hashes and h in desc_of:
+                                under.update(it.hash_of_desc[x] for x in lg.desc_deps(desc_of[h]))
+                        names = sorted(set(nm for h, nm in zip(r0['tasks'], r0['names']) if h in under))
+                        allnames = sorted(set(r0['names']))
+                        rng = self.ck.rng
+                        target = rng.choice(names) if (names and rng.random() < 0.6) else (rng.choice(allnames) if allnames else 'jvjf.f')
+                        ctx0['ops'][k] = '%s:%s' % (op, target)
+                        ctx = dict(ctx0, step=k)
+                    r = real_invalidate(self.sc, s, target, shell=(op == 'invalidate_shell'), slack=self.slack)
+                    tasks, hb = r['tasks'], r['hasbarrier']
+                    self.builder_oracle(r['marks'], before, ctx)
+                    sel = sorted(set(h for h, nm in zip(tasks, r['names']) if name_matches(target, nm)))
+                    opcoq = '(OInvalidate [%s])' % '; '.join(str(it.hash_id(h)) for h in sel)
+                    # what has to go at least, by the descriptors of the program (not by Task.dependencies()): the selected tasks
+                    # and every loaded task with one of those under its arguments; a collapsed compound: the arguments of its call
+                    bad = set(sel)
+                    for h in tasks:
+                        if h in desc_of and not (h in self.comp_hashes and h not in before):
+                            if any(it.hash_of_desc[x] in bad for x in lg.desc_deps(desc_of[h])):
+                                bad.add(h)
+                    inv_expected = sorted(h for h in bad if h in before)
             except SystemExit:
                 self.viol('the jugfile failed to load', **ctx)
                 return None
@@ -331,6 +404,15 @@ class SeqRun:
             ran_blocked = [h for h in executed if h in blocked]
             if ran_blocked:
                 self.viol('a task was executed although its lock is held / marked failed by someone else', keys=sorted(ran_blocked), op=op, **ctx)
+            if op in ('invalidate', 'invalidate_shell'):
+                left = [h for h in inv_expected if h in after]
+                if left:
+                    self.viol('jug invalidate left the result of a task that has an invalidated task under its arguments '
+                              '(a collapsed compound: under the arguments of its call)', target=target, keys=left,
+                              collapsed_compounds=[h for h in left if h in self.comp_hashes], **ctx)
+                lost = [h for h in before if h not in after and h not in tasks]
+                if lost:
+                    self.viol('jug invalidate removed a result that belongs to no loaded task', target=target, keys=lost, **ctx)
             if op in ('cleanup', 'cleanup_keep'):
                 keep = set(tasks)
                 bad = [h for h in before if h in keep and after.get(h) != before[h]] + [h for h in after if h not in keep]
@@ -359,13 +441,13 @@ class SeqRun:
                 if ex2 or again != after or code != 0:
                     self.viol('a second jug execute executed tasks or changed the store', executed=ex2, **ctx)
             steps.append('(%s, ([%s], %s, [%s], %s, %s, %s))' % (
-                OP_COQ[op], '; '.join(str(it.hash_id(h)) for h in tasks), boollit(hb),
+                opcoq, '; '.join(str(it.hash_id(h)) for h in tasks), boollit(hb),
                 '; '.join(str(it.hash_id(h)) for h in executed), lg.coq_store(sorted(after.items()), it), natlit(nc), natlit(ni)))
-            metas.append({'op': op, 'tasks': tasks, 'hasbarrier': hb, 'executed': executed, 'store_after': sorted(after.items())})
+            metas.append({'op': op if not target else '%s:%s' % (op, target), 'tasks': tasks, 'hasbarrier': hb, 'executed': executed, 'store_after': sorted(after.items())})
             ck.count('step: %s%s' % (op, ' (file)' if backend == 'file' else ''))
             if blocked:
                 ck.count('steps with locks of others present')
-            if op in ('load', 'phase', 'cleanup', 'cleanup_keep'):
+            if op in ('load', 'phase', 'cleanup', 'cleanup_keep', 'deps', 'invalidate', 'invalidate_shell'):
                 ncoll = sum(1 for h in self.comp_hashes if h in before and h in tasks)
                 nexp = sum(1 for h in self.comp_hashes if h not in before and h in tasks)
                 if ncoll:
@@ -377,7 +459,7 @@ class SeqRun:
         lk = '[%s]' % '; '.join(str(it.hash_id(h)) for h in sorted(set(held) | set(failed)))
         lit = '(%s,\n %s,\n %s,\n [%s])' % (self.term, lg.coq_store(start, it), lk, ';\n  '.join(steps))
         meta = dict(ctx0, steps=metas)
-        ck.distinct((self.term, lg.coq_store(start, it), lk, tuple(ops)), bool(self.comp_hashes))
+        ck.distinct((self.term, lg.coq_store(start, it), lk, tuple(ctx0['ops'])), bool(self.comp_hashes))
         return lit, meta, len(steps)
 
 
@@ -431,9 +513,15 @@ def gen_ops(rng):
     n = rng.choice([3, 4, 4, 5, 6])
     ops = []
     for i in range(n):
-        ops.append(rng.choice(['load', 'phase', 'phase', 'execute', 'cleanup', 'cleanup_keep', 'cleanup_keep']))
+        ops.append(rng.choice(['load', 'phase', 'phase', 'execute', 'cleanup', 'cleanup_keep', 'cleanup_keep', 'deps',
+                               'invalidate', 'invalidate_shell']))
     if 'cleanup' not in ops and 'cleanup_keep' not in ops:
         ops[rng.randrange(n)] = rng.choice(['cleanup', 'cleanup_keep'])
+    if rng.random() < 0.3:
+        # the history of a changed input: run; reload (compounds collapsed); [discard the inner results;] invalidate a task,
+        # preferably one a compound was built from; run again
+        ops = ['execute', 'deps'] + (['cleanup'] if rng.random() < 0.5 else []) + \
+              [rng.choice(['invalidate', 'invalidate', 'invalidate_shell']), 'load', 'execute']
     return ops + ['load']
 
 
@@ -590,7 +678,7 @@ def replay(obj):
             else:
                 os.environ['HOME'] = home
     for o in ck.found:
-        print('VIOLATED on the real code:', o.get('what'), dict((k, o[k]) for k in ('compound', 'marker', 'keys', 'executed', 'step', 'locks_before', 'locks_after') if k in o))
+        print('VIOLATED on the real code:', o.get('what'), dict((k, o[k]) for k in ('compound', 'marker', 'keys', 'executed', 'step', 'locks_before', 'locks_after', 'target', 'dependencies', 'expected') if k in o))
         rc = 1
     if res is None:
         return 1
